@@ -171,6 +171,54 @@ func main() {
 				add(c)
 			}
 			add(first(runOnce(inst, func(en []int, _ int) int { return en[len(en)-1] }, "sequential:backward")))
+			// every schedule with ONE switch: thread a runs k steps, then thread b runs as far as it can, then the rest
+			// (systematic, for the corpus and the first drawn instances; all instances in the thorough tier)
+			if ii < len(sc.Corpus())+4 || *tier == "thorough" {
+				_, s0 := runOnce(inst, func(en []int, _ int) int { return en[0] }, "probe")
+				steps := map[int]int{}
+				for _, ch := range s0.Choices {
+					steps[ch]++
+				}
+				for a := range steps {
+					for b := range steps {
+						if a == b {
+							continue
+						}
+						for k := 1; k < steps[a]; k++ {
+							a, b, k := a, b, k
+							done, stage := 0, 0
+							pick := func(en []int, _ int) int {
+								has := func(x int) bool {
+									for _, e := range en {
+										if e == x {
+											return true
+										}
+									}
+									return false
+								}
+								if stage == 0 {
+									if has(a) && done < k {
+										done++
+										return a
+									}
+									stage = 1
+								}
+								if stage == 1 {
+									if has(b) {
+										return b
+									}
+									stage = 2
+								}
+								if has(a) {
+									return a
+								}
+								return en[0]
+							}
+							add(first(runOnce(inst, pick, "one-switch")))
+						}
+					}
+				}
+			}
 			// exhaustive enumeration by DFS over choice prefixes, when small
 			if sc.Exhaustive(inst) && exhDone < *nExh {
 				exhDone++
